@@ -85,6 +85,17 @@ ConfLose(e) ==
   ELSE \E ord \in SetToSeqs(RunningOn(CoreRec, w)) :
           LET r == OnRemoveWorker(CoreRec, JobRec, w, e.args.fail, ord) IN CoreAgrees(r[1], e) /\ JobAgrees(r[2], e)
 
+\* on_new_worker (ConnectWorker of the model): the new worker is there with everything free and nothing assigned, scheduling is
+\* requested, and nothing else of the core changes
+ConfConnect(e) ==
+  LET w == e.resp.w  post == SrvOf(e.st) IN
+  /\ w \notin DOMAIN srv /\ w \in DOMAIN post
+  /\ post[w].free = post[w].total /\ post[w].assigned = {} /\ post[w].prefilled = {} /\ post[w].blocked = {}
+  /\ post[w].kind = "sn" /\ ~post[w].stopping /\ post[w].mn = 0 /\ ~post[w].root
+  /\ [x \in DOMAIN post \ {w} |-> post[x]] = srv
+  /\ e.st.srv.need_sched
+  /\ TaskOf(e.st) = task /\ QueueOf(e.st) = queue /\ RedirectOf(e.st) = redirect /\ JobOfSt(e.st) = job
+
 \* ---- scheduler step: the real placement must be one the model allows (tasks handed out in queue order, only onto workers
 \* whose free resources cover them), and mapping / proactive filling / messages must be what the model computes from it
 Placeable(t) ==
@@ -195,12 +206,13 @@ ConfViol(e, pre) ==
        \cup (IF e.a = "W2S" /\ ~ConfW2S(e) THEN {"AUX_Conf_W2S"} ELSE {})
        \cup (IF e.a = "Cancel" /\ ~ConfCancel(e) THEN {"AUX_Conf_Cancel"} ELSE {})
        \cup (IF e.a = "Lose" /\ ~ConfLose(e) THEN {"AUX_Conf_Lose"} ELSE {})
+       \cup (IF e.a = "Connect" /\ ~ConfConnect(e) THEN {"AUX_Conf_Connect"} ELSE {})
        \cup (IF e.a = "S2W" /\ CpuOnly /\ ~ConfS2W(e, pre) THEN {"AUX_Conf_S2W"} ELSE {})
        \cup (IF e.a = "Exit" /\ CpuOnly /\ ~ConfExit(e, pre) THEN {"AUX_Conf_Exit"} ELSE {})
        \cup (IF e.a = "Die" /\ CpuOnly /\ ~ConfDie(e, pre) THEN {"AUX_Conf_Die"} ELSE {})
 
 \* number of steps compared (for the evidence)
-Compared(e) == SnOnly /\ NoTime /\ e.a \in {"W2S", "Cancel", "Lose", "S2W", "Exit", "Die", "Schedule", "Submit"}
+Compared(e) == SnOnly /\ NoTime /\ e.a \in {"W2S", "Cancel", "Lose", "Connect", "S2W", "Exit", "Die", "Schedule", "Submit"}
 
 ConfInit == TraceInit /\ panic = "" /\ wkq = <<>> /\ submitted = {} /\ budget = <<>> /\ armedFail = {} /\ drift = {} /\ journal = <<>> /\ late = {} /\ ncomp = 0 /\ pf = [reserve |-> 0, max |-> 1, slow |-> FALSE]
 
